@@ -30,4 +30,21 @@
 #define clock_gettime(c_, ts_) sim_clock_gettime ((int) (c_), (ts_))
 #define syscall sim_syscall
 
+/* platform/posix/src/per_thread_waiter.c is compiled into the simulation unchanged; its thread-specific-data
+   calls and its yield go to the runtime (definitions in src/sim_platform.c) */
+#if defined(__cplusplus)
+extern "C" {
+#endif
+int sim_pthread_key_create (pthread_key_t *key, void (*dest) (void *));
+void *sim_pthread_getspecific (pthread_key_t key);
+int sim_pthread_setspecific (pthread_key_t key, const void *v);
+int sim_sched_yield (void);
+#if defined(__cplusplus)
+}
+#endif
+#define pthread_key_create sim_pthread_key_create
+#define pthread_getspecific sim_pthread_getspecific
+#define pthread_setspecific sim_pthread_setspecific
+#define sched_yield sim_sched_yield
+
 #endif /*VERIF_SIM_PLATFORM_H_*/
